@@ -334,5 +334,20 @@ def updateF [Zero α] (K : Ktensor α) (data : List α) : Ktensor α :=
         :: go rest (d.drop (n * R))
   { K with factors := go K.factors data }
 
+/-- `LBFGSB.solve` with the in-place evaluations made explicit.  `lbfgsb_func_grad` writes every
+vector the optimiser evaluates into the ONE model object (`model.update(...)`), so when the
+optimiser returns, the model holds the LAST EVALUATED point — which need not be the solution
+(a rejected line-search trial, a cut-off in mid line search).  The code then writes the
+optimiser's returned solution vector into it.  `svc f x0 lb` returns the pair `(x, f(x))` it
+reports and the list of points it evaluated, in order.  (The objective closure evaluates
+`update currentModel v`; `update` overwrites every factor, so that is `update init v`.) -/
+def lbfgsbSolveInPlace (tovec : Ktensor α → List α) (update : Ktensor α → List α → Ktensor α)
+    (svc : (List α → α) → List α → Option α → (List α × α) × List (List α))
+    (objective : Ktensor α → α) (init : Ktensor α) (lb : Option α) : Ktensor α × α :=
+  let x0 := tovec init
+  let r := svc (fun v => objective (update init v)) x0 lb
+  let modelAfterEvals := r.2.foldl update init
+  (update modelAfterEvals r.1.1, r.1.2)
+
 end Opt
 end Pyttb
